@@ -11,7 +11,7 @@ func init() {
 		Variant{Prop: "C03", Name: "seed-pending-range-shifted-in-place", File: rg, Expect: "C03.g",
 			Old: "\tr.headers = r.headers[amnt:]\n", New: "\tn := copy(r.headers, r.headers[amnt:])\n\tr.headers = r.headers[:n]\n"},
 		Variant{Prop: "C03", Name: "pending-range-element-overwritten", File: rg, Expect: "C03.g",
-			Old: "func (r *headerRange[H]) Append(h ...H) {\n\tr.lk.Lock()\n\tr.headers = append(r.headers, h...)\n", New: "func (r *headerRange[H]) Append(h ...H) {\n\tr.lk.Lock()\n\tif len(r.headers) > 0 && len(h) > 0 && r.headers[len(r.headers)-1].Height() == h[0].Height() {\n\t\tr.headers[len(r.headers)-1] = h[0]\n\t\th = h[1:]\n\t}\n\tr.headers = append(r.headers, h...)\n"},
+			Old: "func (r *headerRange[H]) Append(h ...H) {\n\tr.lk.Lock()\n", New: "func (r *headerRange[H]) Append(h ...H) {\n\tr.lk.Lock()\n\tif len(r.headers) > 0 && len(h) > 0 && r.headers[len(r.headers)-1].Height() == h[0].Height() {\n\t\tr.headers[len(r.headers)-1] = h[0]\n\t\th = h[1:]\n\t}\n"},
 		Variant{Prop: "C03", Name: "benign-pending-range-remove-by-clone", File: rg,
 			Old: "\tr.headers = r.headers[amnt:]\n", New: "\tr.headers = append([]H(nil), r.headers[amnt:]...)\n"},
 	)
